@@ -70,6 +70,26 @@ type table struct {
 	Skipped     int               `json:"skipped_thread_local_values"`
 	Warnings    []string          `json:"warnings"`
 	CoqRows     []string          `json:"coq_rows"`
+	Foreign     []foreignSite     `json:"foreign_calls"`
+	Queries     []struct {
+		Method   string   `json:"method"`
+		Acquires []string `json:"acquires"`
+	} `json:"public_getters"`
+}
+
+// foreignSite: a call that leaves the scanned code while a mutex is held (tools/lockscan/reentry.go).
+type foreignSite struct {
+	Pos     string   `json:"pos"`
+	Func    string   `json:"func"`
+	What    string   `json:"what"`
+	Kind    string   `json:"kind"`
+	Held    []string `json:"held"`
+	Pub     []string `json:"pub"`
+	Reenter []string `json:"reenter"`
+	Code    int      `json:"code"`
+	Why     string   `json:"why"`
+	Subject string   `json:"subject"`
+	Pending string   `json:"pending"`
 }
 
 func repoPath() string {
@@ -207,6 +227,47 @@ func main() {
 	}
 	oset := &cq.Set{Name: "c10order", Import: "IV.Check.C10Check", CaseType: "list (Z * Z)", Checks: []string{"order_failures"},
 		Cases: []cq.Case{{Coq: cq.L(es), JSON: map[string]interface{}{"edges": t.Edges}, Buckets: []string{"lock-order"}}}}
+	// calls to foreign code under a mutex: one case per site (fails with the site's code) + one case with all sites
+	cset := &cq.Set{Name: "c10callback", Import: "IV.Check.C10Check", CaseType: "ccase", Checks: []string{"callback_failures"}}
+	siteCoq := func(f foreignSite) string {
+		var hs, ps []int64
+		for _, l := range f.Held {
+			hs = append(hs, int64(lockID[l]))
+		}
+		for _, l := range f.Pub {
+			ps = append(ps, int64(lockID[l]))
+		}
+
+		return cq.T(cq.LZ(hs), cq.LZ(ps))
+	}
+	var allSites []string
+	var allJS []foreignSite
+	for _, f := range t.Foreign {
+		b := []string{"foreign-call:" + f.Kind}
+		if len(f.Pub) > 0 {
+			b = append(b, "public-getters-take-a-lock")
+		}
+		if f.Pending != "" {
+			b = append(b, "pending-fix")
+		} else {
+			allSites = append(allSites, siteCoq(f))
+			allJS = append(allJS, f)
+		}
+		cset.Cases = append(cset.Cases, cq.Case{
+			Coq: cq.T(cq.Z(int64(f.Code)), cq.T(cq.L(es), cq.L([]string{siteCoq(f)}))),
+			JSON: map[string]interface{}{"site": f, "edges": t.Edges, "stress_pkg": strings.SplitN(f.Func, ".", 2)[0],
+				"meaning": "the call `" + f.What + "` in " + f.Func + " (" + f.Pos + ") runs user code (" + f.Why + ") while " + strings.Join(f.Held, ", ") +
+					" is held; that code may call the public getters, which acquire " + strings.Join(f.Pub, ", ") + "; re-entrant: " + strings.Join(f.Reenter, "; ")},
+			Buckets: b, Trivial: len(f.Pub) == 0,
+		})
+	}
+	cset.Cases = append(cset.Cases, cq.Case{
+		Coq:     cq.T(cq.Z(1), cq.T(cq.L(es), cq.L(allSites))),
+		JSON:    map[string]interface{}{"sites": allJS, "edges": t.Edges, "meaning": "recorded lock-order edges plus the edges held x pub of every site must be acyclic"},
+		Buckets: []string{"all-sites"}, Trivial: len(allSites) == 0,
+	})
+	extra["foreign_calls_under_lock"] = t.Foreign
+	extra["public_getters"] = t.Queries
 	extra["rows"] = len(t.Rows)
 	extra["locations"] = len(t.Locs)
 	extra["struct_types"] = len(names)
@@ -274,6 +335,8 @@ func main() {
 		extra["race_stress_per_interceptor"] = per.String()
 		cur, races, stalls, begun := "", 0, 0, 0
 		lostUpdates, uars, scen := 0, 0, 0
+		reenters, reenterSeen := 0, map[string]bool{}
+		var vacuous []string
 		// findings of the conservation / use-after-release scenarios (cmd/c10race/conserve.go): one JSON object per line
 		scenarioFinding := func(line, tag, kind string, seen *int) {
 			*seen++
@@ -316,6 +379,21 @@ func main() {
 				scenarioFinding(line, "C10RACE-LOSTUPDATE", "lost-update", &lostUpdates)
 			case strings.HasPrefix(line, "C10RACE-UAR "):
 				scenarioFinding(line, "C10RACE-UAR", "use-after-release", &uars)
+			case strings.HasPrefix(line, "C10RACE-REENTER "):
+				// user code (callback / downstream writer / upstream reader) that called a public getter never returned
+				var v map[string]interface{}
+				_ = json.Unmarshal([]byte(strings.TrimPrefix(line, "C10RACE-REENTER ")), &v)
+				reenters++
+				cb := strings.NewReplacer(" ", "-", "/", "-").Replace(fmt.Sprint(v["callback"]))
+				if !reenterSeen[cb] && len(reenterSeen) < 4 {
+					reenterSeen[cb] = true
+					fails = append(fails, cq.ImplFailure{Kind: "callback-deadlock." + cb,
+						Detail: fmt.Sprintf("%v: %v (entered %v, returned %v)\n%v", v["scenario"], v["what"], v["entered"], v["returned"], v["stacks"]),
+						Case: map[string]interface{}{"interceptor": cur, "pkgs": pkgOf(cur), "finding": v,
+							"how": "go build -race ./cmd/c10race; c10race -mode scenarios -pkgs <pkg>"}})
+				}
+			case strings.HasPrefix(line, "C10RACE-INFO ") && strings.Contains(line, "never invoked"):
+				vacuous = append(vacuous, strings.TrimPrefix(line, "C10RACE-INFO "))
 			case strings.HasPrefix(line, "WARNING: DATA RACE"):
 				races++
 				inRace = true
@@ -344,6 +422,8 @@ func main() {
 		extra["conservation_and_release_scenarios_run"] = scen
 		extra["lost_update_findings"] = lostUpdates
 		extra["use_after_release_findings"] = uars
+		extra["callback_deadlock_findings"] = reenters
+		extra["reenter_scenarios_vacuous_for"] = vacuous
 		if err != nil && races == 0 && stalls == 0 {
 			tail := slog
 			if len(tail) > 4000 {
@@ -354,7 +434,7 @@ func main() {
 		}
 	}
 	cq.Write(o, "a struct type counts as non-trivial when some row outside the constructor phase writes one of its fields",
-		[]*cq.Set{tset, oset}, extra, fails)
+		[]*cq.Set{tset, oset, cset}, extra, fails)
 }
 
 // stressPkg maps a package name of the table to the package name c10race knows.
